@@ -51,6 +51,12 @@ def PathWithin (g : Graph) (valid : List Node) : Node → List Str → Node → 
   | a, [], b => a = b
   | a, nm :: rest, b => ∃ e ∈ g.children a, e.name = nm ∧ e.node ∈ valid ∧ PathWithin g valid e.node rest b
 
+/-- `b` is `a` or a descendant of `a` (along any dependency edge) -/
+def Reach (g : Graph) (a b : Node) : Prop := a = b ∨ Relation.TransGen (edge g true) a b
+
+/-- the graph has no cycle -/
+def Graph.Acyclic (g : Graph) : Prop := ∀ a, ¬ Relation.TransGen (edge g true) a a
+
 /-- a step is "complex" for the empty-result modes: wildcard name test, predicate, or a
 descendant axis -/
 def stepComplex (ax : Axis) (test : Str) (op : OptPred) : Bool :=
